@@ -32,7 +32,11 @@ DocItems == {"otherKind", "badSchema", "fatal", "nokindDoc"}
 FileItems == {"nonmanifest", "broken", "nokind"}
 
 (* templates: how the good documents are spread over files (lexical order) *)
-Templates == { << <<"g1", "g2", "g3", "g4">> >>, << <<"g1", "g2">>, <<"g3", "g4">> >>, << <<"g4">>, <<"g1">>, <<"g2", "g3">> >> }
+(* the last one has no NetworkPolicy at all: the parser then adds a (non-severe) "no network policy resources" warning AFTER   *)
+(* whatever it reported for the documents                                                                                     *)
+Templates == { << <<"g1", "g2", "g3", "g4">> >>, << <<"g1", "g2">>, <<"g3", "g4">> >>, << <<"g4">>, <<"g1">>, <<"g2", "g3">> >>,
+               << <<"g1", "g2", "g3">> >> }
+HasPolicyDoc(fs) == \E f \in DOMAIN fs : \E p \in DOMAIN fs[f].docs : fs[f].docs[p] = "g4"
 
 File(cls, docs) == [cls |-> cls, docs |-> docs]
 BaseFiles(t) == [i \in DOMAIN t |-> File("yaml", t[i])]
@@ -42,7 +46,9 @@ InsertAt(s, p, x) == SubSeq(s, 1, p) \o <<x>> \o SubSeq(s, p + 1, Len(s))
 (* one injection applied to a directory *)
 Injections(fs) ==
   {[fs EXCEPT ![x[1]].docs = InsertAt(@, x[2], x[3])] :
-      x \in {y \in (DOMAIN fs) \X (0..5) \X DocItems : fs[y[1]].cls = "yaml" /\ y[2] <= Len(fs[y[1]].docs)}}
+      x \in {y \in (DOMAIN fs) \X (0..5) \X DocItems : /\ fs[y[1]].cls = "yaml" /\ y[2] <= Len(fs[y[1]].docs)
+                                                         \* the "fatal" item is a second policy named like g4: a conflict only next to g4
+                                                         /\ (y[3] = "fatal" => HasPolicyDoc(fs))}}
   \cup {<<File(it, <<>>)>> \o fs : it \in FileItems}
   \cup {fs \o <<File(it, <<>>)>> : it \in FileItems}
 
@@ -129,7 +135,8 @@ SevereItemFiles == {f \in DOMAIN scn.files : scn.files[f].cls \in {"broken", "no
 HasFatalItem == \E f \in DOMAIN scn.files : \E p \in DOMAIN scn.files[f].docs : scn.files[f].docs[p] = "fatal"
 
 (* 1. injected documents never change the computed connections: a result is computed from all good documents *)
-NoSkew == (phase = "done" /\ outcome = "result") => objs = Good
+GoodIn == {d \in Good : \E f \in DOMAIN scn.files : \E p \in DOMAIN scn.files[f].docs : scn.files[f].docs[p] = d}
+NoSkew == (phase = "done" /\ outcome = "result") => objs = GoodIn
 (* 2. every unreadable / malformed item is reported as severe, attributable to its file
       (unless the run was cut short by stop-on-error before reaching it) *)
 SevereReported == (phase = "done" /\ ~scn.stop) => \A f \in SevereItemFiles : [sev |-> "severe", file |-> f] \in errs
